@@ -259,7 +259,7 @@ def _gen_build(r, g, class_default):
     if r.random() < 0.22:
         si = r.randrange(n_stage)
         st = stages[si]
-        how = r.choice(['source', 'meta', 'below', 'included', 'twice', 'twice', 'marked_below', 'marked_merged'])
+        how = r.choice(['source', 'meta', 'below', 'included', 'twice', 'twice', 'marked_below', 'marked_merged', 'key_below'])
         if how == 'source' and st['taint'] == 'U':
             st['items'].append(['w0', _call(g, 'U', r.choice(['call', 'bind']))])
             witness = how
@@ -269,6 +269,12 @@ def _gen_build(r, g, class_default):
         elif how == 'below':
             inner = r.choice([_call(g, 'U', 'call'), '!import simrec.v_' + g.tok('U'), '!eval ' + emit.scalar_text("'" + g.tok('U') + "'")])
             st['items'].append(['w0', '!unsafe {k: [' + inner + ']}'])
+            witness = how
+        elif how == 'key_below':
+            # a dynamic node used as a mapping KEY: keys are not children of the mapping, they are below it all the same
+            u = g.tok('U')
+            keynode = r.choice([f'!eval "rec(\'{u}\', 1)"', f'!import simrec.v_{u}', f"!fstr \"f'{{rec(\\\"{u}\\\", 2)}}'\""])
+            st['items'].append(['w0', r.choice(['!unsafe {' + keynode + ': 1}', '!unsafe [{' + keynode + ': 1}]', '!unsafe {m: {' + keynode + ': [1]}}'])])
             witness = how
         elif how == 'marked_below':
             inner = r.choice([f"!call:simrec.f_{g.tok('U')}{{{{'safe': True}}}} {{}}", f"!bind:simrec.f_{g.tok('U')}{{{{'safe': True}}}} {{}}",
